@@ -4,15 +4,16 @@ From NG Require Import Common.Tactics Common.HarnessLib.
 From NG Require Export Auth.Witness.
 Open Scope N_scope.
 
-(* contracts 1,2,3 (groups {1}, {1,2}, {}), a native-like contract 7 without groups; 9 = the entry script,
-   8 = a dynamic script (neither is a contract); group keys 1,2 *)
-Definition universe : list (N * list N) := [(1, [1]); (2, [1; 2]); (3, []); (7, [])].
+(* contracts 1,2,3,10 (groups {1}, {1,2}, {}, {2}), a native-like contract 7 without groups; 9 = the entry script,
+   8 = a dynamic script (neither is a contract); group keys 1,2.  Calling and current contract thus differ in group
+   membership in every way: caller only / current only / both / neither, and groups 1 / 2 split between them (1 vs 10). *)
+Definition universe : list (N * list N) := [(1, [1]); (2, [1; 2]); (3, []); (10, [2]); (7, [])].
 
 (* every call context of the universe, in the order the Go harness enumerates them:
    the entry script itself; then, called by entry (by_entry) and deeper (not by_entry):
-   current in {1,2,3} x calling in {0,1,2,3,9} x ReadStates in {yes,no} *)
+   current in {1,2,3,10} x calling in {0,1,2,3,10,9} x ReadStates in {yes,no} *)
 Definition ctxs_at (be : bool) : list wctx :=
-  flat_map (fun cur => flat_map (fun cal => map (fun rs => mk_wctx cal cur be rs universe) [true; false]) [0; 1; 2; 3; 9]) [1; 2; 3].
+  flat_map (fun cur => flat_map (fun cal => map (fun rs => mk_wctx cal cur be rs universe) [true; false]) [0; 1; 2; 3; 10; 9]) [1; 2; 3; 10].
 Definition all_ctx : list wctx :=
   map (fun rs => mk_wctx 0 9 true rs universe) [true; false] ++ ctxs_at true ++ ctxs_at false.
 
@@ -26,7 +27,10 @@ Inductive case :=
 (* System.Runtime.CheckWitness executed inside deployed contracts on a live chain, in the given context *)
 | CLive (signers : list signer) (h : N) (cal cur : N) (be rs : bool) (impl : N).
 
-Definition code3 (model spec : bool) : N := if spec then (if model then 0 else 1) else 2.
+(* The specification is only evaluated when the observation differs from the mechanism model: where they agree the
+   specification is met by theorem (WitnessProofs: check_hashed_witness_specb / cmatch_holdsb give the Ok answers,
+   witness_error_only / cmatch_err the faults), so agreement is code 0. *)
+Definition code3 (model : bool) (spec : unit -> bool) : N := if model then 0 else if spec tt then 1 else 2.
 
 (* the specification on one observation: granted exactly where the declarative predicate holds; an error (the system
    call faults) is only acceptable where the code cannot read states, or for an empty signer list *)
@@ -50,16 +54,16 @@ Definition check_case (cs : case) : N :=
   | CCond c impl =>
       if negb (length impl =? length all_ctx)%nat then 3 else
       let model := list_eqb N.eqb impl (map (fun x => rcode (cmatch x c)) all_ctx) in
-      let spec := all2 (fun x i => obs_ok (holdsb x c) (negb (read_states x)) i) all_ctx impl in
+      let spec := fun _ : unit => all2 (fun x i => obs_ok (holdsb x c) (negb (read_states x)) i) all_ctx impl in
       code3 model spec
   | CScope signers h impl =>
       if negb (length impl =? length all_ctx)%nat then 3 else
       let model := list_eqb N.eqb impl (map (fun x => rcode (check_hashed_witness x signers h)) all_ctx) in
-      let spec := all2 (fun x i => obs_ok (witness_specb x signers h)
+      let spec := fun _ : unit => all2 (fun x i => obs_ok (witness_specb x signers h)
                                           (negb (read_states x) || match signers with [] => true | _ => false end) i) all_ctx impl in
       code3 model spec
   | CLive signers h cal cur be rs impl =>
       let x := mk_wctx cal cur be rs universe in
       let model := impl =? rcode (check_hashed_witness x signers h) in
-      code3 model (obs_ok (witness_specb x signers h) (negb rs || match signers with [] => true | _ => false end) impl)
+      code3 model (fun _ => obs_ok (witness_specb x signers h) (negb rs || match signers with [] => true | _ => false end) impl)
   end.
